@@ -1137,8 +1137,9 @@ _router_entry("C10",
     "corollaries: keys are route texts without '?', with exactly one leading '/'; `distinct_handles_needed` shows the "
     "one-handle-per-registration guard cannot be dropped. The correspondence "
     "runs every request against the real Flame and a shadow tree populated through the export, in histories interleaving "
-    "registrations, Headers() and requests.",
-    lambda s, R, M: rp.cmp_dispatch(s, R, M, params=True),
+    "registrations, Headers() and requests; on top of the comparison with the model, every request's outcome at Flame.ServeHTTP "
+    "is compared with the outcome of the real tree alone (a monitor on the code that needs no model).",
+    rp.cmp_shortcut,
     lambda op, r, m, n: r.startswith("h "),
     "case = (history, request); non-trivial = dispatched (to a static or shadowing dynamic route)")
 PROPS["C10"]["props_modules"] = ["Flamego.Props.C10", "Flamego.Proofs.Shortcut", "Flamego.Proofs.ShortcutTree"]
